@@ -84,6 +84,18 @@ theorem pivsign_eq_sign {m n : Nat} (h : n ≤ m) (A : Mat ℝ m n) (σ : Equiv.
   have : σ = σ' := Equiv.ext fun i => by rw [← hσ i, h1 i]
   rw [this]; exact h2
 
+
+/-- partial pivoting: every stored multiplier (entry of `L` below the diagonal) has magnitude `≤ 1` -/
+theorem multipliers_le_one {m n : Nat} (h : n ≤ m) (A : Mat ℝ m n) (i : Fin m) (j : Fin n) :
+    |(getL (factor h A)).get i j| ≤ 1 := by
+  simp only [getL, Mat.get_ofFn]
+  by_cases h1 : j.val < i.val
+  · rw [if_pos h1]; exact multInv_factor h A i j j.isLt h1
+  · rw [if_neg h1]
+    by_cases h2 : i.val = j.val
+    · rw [if_pos h2]; simp
+    · rw [if_neg h2]; simp
+
 /-! ## determinant -/
 
 /-- the object's `det()` of a square matrix is its determinant -/
@@ -199,5 +211,51 @@ theorem inv_spec {n : Nat} (A : Mat ℝ n n) (d : ℝ) (O : Mat ℝ n n) (hi : i
 /-- `MatrixTools::inv` refuses non-square input -/
 theorem inv_nonsquare_raises {m n : Nat} (hmn : m ≠ n) (A : Mat ℝ m n) : inv A = .error .dimension := by
   unfold inv; rw [if_pos hmn]
+
+/-! ## non-vacuity: the hypotheses of the theorems above are satisfiable -/
+section NonVacuity
+
+/-- the 1×1 matrix `[2]` -/
+def A1 : Mat ℝ 1 1 := Mat.ofFn fun _ _ => 2
+def B1 : Mat ℝ 1 2 := Mat.ofFn fun _ j => if j.val = 0 then 4 else 6
+
+theorem A1_pivot (i : Fin 1) : (factor (Nat.le_refl 1) A1).lu.get i i = 2 := by
+  have : i = 0 := Subsingleton.elim _ _
+  subst this
+  simp [factor, Fin.foldl_succ, step, findPivot, exchange, eliminate, init, A1]
+
+example : ∃ s, construct A1 = .ok s := ⟨_, construct_square A1⟩
+
+/-- `solve` returns on a regular system (so `solve_spec`, `indicator_spec` are not vacuous) -/
+example : ∃ d X, solve (factor (Nat.le_refl 1) A1) B1 = .ok (d, X) := by
+  apply solve_returns _ _ (by decide) (by decide)
+  intro i
+  rw [A1_pivot i]
+  have := threshold_pos
+  unfold threshold at *
+  simp only [ScalarReal.ofRat_eq, Generated.thresholdNum, Generated.thresholdDen]
+  norm_num
+
+/-- `inv` returns on a regular matrix -/
+example : ∃ d O, inv A1 = .ok (d, O) := by
+  unfold inv
+  rw [if_neg (by simp), construct_square]
+  apply solve_returns _ _ (by decide) (by decide)
+  intro i
+  rw [A1_pivot i]
+  unfold threshold
+  simp only [ScalarReal.ofRat_eq, Generated.thresholdNum, Generated.thresholdDen]
+  norm_num
+
+/-- a singular matrix exists on which `singular_raises` applies: the 1×1 zero matrix -/
+example : solve (factor (Nat.le_refl 1) (Mat.ofFn fun _ _ => (0 : ℝ))) B1 = .error .zeroDivision := by
+  apply singular_raises
+  refine ⟨0, ?_⟩
+  have : (factor (Nat.le_refl 1) (Mat.ofFn fun _ _ => (0 : ℝ))).lu.get 0 0 = 0 := by
+    simp [factor, Fin.foldl_succ, step, findPivot, exchange, eliminate, init]
+  rw [this, abs_zero]
+  exact threshold_pos
+
+end NonVacuity
 
 end Bpp.C05
